@@ -3,6 +3,8 @@ package rules
 import (
 	"fmt"
 	"go/ast"
+	"go/constant"
+	"go/parser"
 	"go/token"
 	"go/types"
 	"sort"
@@ -528,7 +530,7 @@ func isParamOf(fi *load.FuncInfo, v *types.Var) bool {
 func CheckC13(c *Ctx) {
 	run := c.Run
 	run.Technique = "typed-AST protocol/typestate lints on Backtest.Run and Backtest.worker (Begin → per asset: AssetBegin → one Write per strategy → AssetEnd → End after Wait) + SSA shared-write analysis rooted at `go b.worker` + lock-consistency lints on both report implementations + comparator totality lint"
-	run.Explanation = "Equality of the reported numbers with a direct evaluation is NOT decided. Decided structurally: Begin is called before any worker starts and End after wg.Wait(); in the worker, for every asset, AssetBegin precedes the strategy loop and AssetEnd follows it; each iteration of the strategy loop calls report.Write exactly once, with the outputs of strategy.ComputeWithOutcome for that strategy on a fresh SliceToChan of that asset's snapshots (no iteration can skip it); all assets flow through one channel shared by the workers. The SSA shared-write analysis shows that nothing reachable from `go b.worker` (including both bundled Report implementations, resolved through the interface by CHA) writes shared memory without holding a mutex, and in both report types every access to the shared maps/slices happens under the mutex. Functions passed to slices.SortFunc / sort.Slice must be total orders on the compared field: no conversion of a floating-point difference to int (results closer than 1 would compare equal, so the entry presented as best need not be maximal)."
+	run.Explanation = "Equality of the reported numbers with a direct evaluation is NOT decided. Decided structurally: Begin is called before any worker starts and End after wg.Wait(); in the worker, for every asset, AssetBegin precedes the strategy loop and AssetEnd follows it; each iteration of the strategy loop calls report.Write exactly once, with the outputs of strategy.ComputeWithOutcome for that strategy on a fresh SliceToChan of that asset's snapshots (no iteration can skip it); all assets flow through one channel shared by the workers. The SSA shared-write analysis shows that nothing reachable from `go b.worker` (including both bundled Report implementations, resolved through the interface by CHA) writes shared memory without holding a mutex, and in both report types every access to the shared maps/slices happens under the mutex. Functions passed to slices.SortFunc / sort.Slice must be total orders on the compared field: no conversion of a floating-point difference to int (results closer than 1 would compare equal, so the entry presented as best need not be maximal). No run crashes: every slice index in package backtest is the key of a range over that slice, a constant below the constant element count of helper.Duplicate, or protected by a length check; the rule is exercised on a built-in positive example on every run."
 	run.Trusted = []string{"go/types", "go/ssa + CHA", "sync.Mutex semantics"}
 	runFi := c.fn("backtest", "Backtest", "Run")
 	wFi := c.fn("backtest", "Backtest", "worker")
@@ -673,6 +675,7 @@ func CheckC13(c *Ctx) {
 	c.lockConsistency("backtest", "DataReport", []string{"Results"}, "backtest")
 	c.lockConsistency("backtest", "HTMLReport", []string{"assetResults", "bestResults"}, "backtest")
 	c.comparators()
+	c.sliceBounds()
 }
 
 // comparators: functions passed to sorting routines must not order floats through int(difference).
@@ -736,4 +739,199 @@ func (c *Ctx) comparators() {
 	}
 	run.Count("comparators", n)
 	run.Floor("comparators", 2)
+}
+
+// sliceBounds: "no run crashes" - every index into a slice in the backtest package (reports,
+// worker) is protected: the index is the key of a range over that slice, or an enclosing
+// condition mentions the length of that slice. The bundled code indexes maps only; an index such
+// as transactions[len(transactions)-1] on a possibly empty slice panics on a worker goroutine
+// and takes the whole run down.
+func (c *Ctx) sliceBounds() {
+	run := c.Run
+	bp := c.P.Pkg("backtest")
+	if bp == nil {
+		return
+	}
+	for _, f := range bp.Syntax {
+		if strings.HasSuffix(c.P.Fset.Position(f.Pos()).Filename, "_test.go") {
+			continue
+		}
+		for _, d := range f.Decls {
+			fd, ok := d.(*ast.FuncDecl)
+			if !ok || fd.Body == nil {
+				continue
+			}
+			for _, site := range unguardedSliceIndexes(bp.TypesInfo, fd.Body) {
+				run.Count("slice_indexes", 1)
+				run.Oblige(site.guarded)
+				if !site.guarded {
+					c.violate("backtest/bounds", "backtest."+fd.Name.Name, site.text, site.pos, "the slice index "+site.text+" is neither the key of a range over that slice nor protected by a check of its length: an empty (or shorter) slice panics, on a worker goroutine that ends the whole run")
+				}
+			}
+		}
+	}
+	// the rule's expected count on this code base is zero: keep it honest on a positive example
+	const sample = `package p
+func last(xs []int) int { return xs[len(xs)-1] }
+func safe(xs []int) int { if len(xs) == 0 { return 0 }; return xs[len(xs)-1] }
+func each(xs []int) int { s := 0; for i := range xs { s += xs[i] }; return s }`
+	fset := token.NewFileSet()
+	pf, err := parser.ParseFile(fset, "sample.go", sample, 0)
+	okSample := false
+	if err == nil {
+		info := &types.Info{Types: map[ast.Expr]types.TypeAndValue{}, Defs: map[*ast.Ident]types.Object{}, Uses: map[*ast.Ident]types.Object{}}
+		if _, err := (&types.Config{}).Check("p", fset, []*ast.File{pf}, info); err == nil {
+			var got []bool
+			for _, d := range pf.Decls {
+				for _, s := range unguardedSliceIndexes(info, d.(*ast.FuncDecl).Body) {
+					got = append(got, s.guarded)
+				}
+			}
+			okSample = len(got) == 3 && !got[0] && got[1] && got[2]
+		}
+	}
+	run.Oblige(okSample)
+	if !okSample {
+		run.Break("the slice-bounds rule does not classify its built-in examples as expected")
+	}
+}
+
+// definedCount: the variable is defined exactly once in body, by a call whose last argument is
+// the constant number of elements the returned slice has (helper.Duplicate(c, n)).
+func definedCount(info *types.Info, body *ast.BlockStmt, obj types.Object) (int64, bool) {
+	var n int64
+	defs, ok := 0, false
+	ast.Inspect(body, func(m ast.Node) bool {
+		as, isAs := m.(*ast.AssignStmt)
+		if !isAs {
+			return true
+		}
+		for i, l := range as.Lhs {
+			id, isID := l.(*ast.Ident)
+			if !isID || info.ObjectOf(id) != obj {
+				continue
+			}
+			defs++
+			if len(as.Lhs) != len(as.Rhs) {
+				continue
+			}
+			call, isCall := as.Rhs[i].(*ast.CallExpr)
+			if !isCall || len(call.Args) == 0 || !strings.HasSuffix(calleeText2(call.Fun), "Duplicate") {
+				continue
+			}
+			if tv, has := info.Types[call.Args[len(call.Args)-1]]; has && tv.Value != nil {
+				if v, exact := constant.Int64Val(constant.ToInt(tv.Value)); exact {
+					n, ok = v, true
+				}
+			}
+		}
+		return true
+	})
+	return n, ok && defs == 1
+}
+
+func calleeText2(e ast.Expr) string {
+	switch x := e.(type) {
+	case *ast.Ident:
+		return x.Name
+	case *ast.SelectorExpr:
+		return x.Sel.Name
+	case *ast.IndexExpr:
+		return calleeText2(x.X)
+	case *ast.IndexListExpr:
+		return calleeText2(x.X)
+	}
+	return ""
+}
+
+type indexSite struct {
+	text    string
+	pos     token.Pos
+	guarded bool
+}
+
+func unguardedSliceIndexes(info *types.Info, body *ast.BlockStmt) []indexSite {
+	var out []indexSite
+	var stack []ast.Node
+	ast.Inspect(body, func(n ast.Node) bool {
+		if n == nil {
+			stack = stack[:len(stack)-1]
+			return true
+		}
+		stack = append(stack, n)
+		ix, ok := n.(*ast.IndexExpr)
+		if !ok {
+			return true
+		}
+		t := info.TypeOf(ix.X)
+		if t == nil {
+			return true
+		}
+		if _, isSlice := t.Underlying().(*types.Slice); !isSlice {
+			return true
+		}
+		if tv, ok := info.Types[ix.Index]; ok && tv.Value != nil {
+			// a constant index still needs a length check
+		}
+		base := types.ExprString(ix.X)
+		guarded := false
+		// xs := f(.., N) with a constant count N (helper.Duplicate) indexed by a constant below N
+		if id, ok := ix.X.(*ast.Ident); ok {
+			if tv, ok := info.Types[ix.Index]; ok && tv.Value != nil {
+				if k, exact := constant.Int64Val(constant.ToInt(tv.Value)); exact {
+					if n, ok := definedCount(info, body, info.ObjectOf(id)); ok && k >= 0 && k < n {
+						guarded = true
+					}
+				}
+			}
+		}
+		mentionsLen := func(e ast.Node) bool {
+			found := false
+			ast.Inspect(e, func(m ast.Node) bool {
+				if call, ok := m.(*ast.CallExpr); ok && len(call.Args) == 1 {
+					if id, ok := call.Fun.(*ast.Ident); ok && id.Name == "len" && types.ExprString(call.Args[0]) == base {
+						found = true
+					}
+				}
+				return !found
+			})
+			return found
+		}
+		for i := len(stack) - 2; i >= 0 && !guarded; i-- {
+			switch p := stack[i].(type) {
+			case *ast.RangeStmt:
+				if types.ExprString(p.X) == base {
+					if k, ok := p.Key.(*ast.Ident); ok {
+						if id, ok := ix.Index.(*ast.Ident); ok && info.ObjectOf(id) == info.ObjectOf(k) {
+							guarded = true
+						}
+					}
+				}
+			case *ast.IfStmt:
+				if mentionsLen(p.Cond) {
+					guarded = true
+				}
+			case *ast.ForStmt:
+				if p.Cond != nil && mentionsLen(p.Cond) {
+					guarded = true
+				}
+			case *ast.BlockStmt:
+				// an earlier statement of the block that leaves when the slice is too short
+				for _, s := range p.List {
+					if s.End() > ix.Pos() {
+						break
+					}
+					if is, ok := s.(*ast.IfStmt); ok && mentionsLen(is.Cond) && len(is.Body.List) > 0 {
+						switch is.Body.List[len(is.Body.List)-1].(type) {
+						case *ast.ReturnStmt, *ast.BranchStmt:
+							guarded = true
+						}
+					}
+				}
+			}
+		}
+		out = append(out, indexSite{text: types.ExprString(ix), pos: ix.Pos(), guarded: guarded})
+		return true
+	})
+	return out
 }
